@@ -38,7 +38,24 @@ def json_event(case):
         ev["bp_obs2"] = dyn.obs_bp(schema, C[ty]().from_json(rtext), ty)
     except Exception as ex:
         ev["bp_res2"] = type(ex).__name__ + ":" + str(ex)[:60]
+    # the other texts the reference emits for the same message (its printer options): proto field names as keys, enums as
+    # numbers, fields without presence printed at their defaults -- each must be read as the same message
+    ev["variants"] = []
+    for name, kw in REF_PRINTER_VARIANTS:
+        v = {"name": name, "tree": {"t": "obj", "kv": []}, "res": "ok", "obs": val}
+        try:
+            vtext = json_format.MessageToJson(rm, **kw)
+            _, v["tree"] = jsontree.from_text(vtext)
+            v["obs"] = dyn.obs_bp(schema, C[ty]().from_json(vtext), ty)
+        except Exception as ex:
+            v["res"] = type(ex).__name__ + ":" + str(ex)[:60]
+        ev["variants"].append(v)
     return ev
+
+
+REF_PRINTER_VARIANTS = [("proto_names", {"preserving_proto_field_name": True}), ("enum_numbers", {"use_integers_for_enums": True}),
+                        ("defaults_printed", {"always_print_fields_with_no_presence": True}),
+                        ("all", {"preserving_proto_field_name": True, "use_integers_for_enums": True, "always_print_fields_with_no_presence": True})]
 
 
 def cases(ctx, quick):
